@@ -279,12 +279,14 @@ func scanKeyWrites() []keyWrite {
 	return out
 }
 
-func genC02KeyWrites(g *gen) {
+func genC02KeyWrites(g *gen) { genKeyWritesNamed(g, "gen_c02_key_writes") }
+
+func genKeyWritesNamed(g *gen, name string) {
 	ws := scanKeyWrites()
 	g.line("(* every store of a non-nil session key outside internal/crypto: (function, \"field\" | \"setter\", class);")
 	g.line("   class 1 = early return when the open already completed / a key is present, 2 = object created in the same function,")
 	g.line("   3 = object from a one-shot channel result, 4 = parameter, all callers pass a fresh object, 0 = unprotected *)")
-	g.line("Definition gen_c02_key_writes : list (string * string * N) := [")
+	g.line("Definition %s : list (string * string * N) := [", name)
 	for i, w := range ws {
 		sep := ";"
 		if i == len(ws)-1 {
